@@ -667,6 +667,7 @@ class HSM2Dongle:
                 self.ERR.SIGN.DATA_SIZE,
                 self.ERR.SIGN.DATA_SIZE_AUTH,
                 self.ERR.SIGN.DATA_SIZE_NOAUTH,
+                self.ERR.SIGN.INVALID_PATH,
             ]:
                 return (False, self.RESPONSE.SIGN.ERROR_PATH)
             return (False, self.RESPONSE.SIGN.ERROR_UNEXPECTED)
